@@ -54,8 +54,16 @@ def streams(ctx):
 def gen_inputs(r, pk):
     n = r.randint(1, 5)
     names = r.sample(["Alpha", "Beta", "Gamma", "Delta", "Conf", "Model", "Node"], n)
-    irs = [irgen.rand_ir(r, nparams=r.randint(1, 4), type_kinds=T, default_kinds=D, with_return=False, name=nm)
+    irs = [irgen.rand_ir(r, nparams=r.randint(1, 4), type_kinds=T, default_kinds=D, with_return=False, name=nm,
+                         doc_kinds=("plain", "plain", "plain", "long"))
            for nm in names]
+    for ir in irs:
+        for p in ir["params"].values():
+            if len(p.get("doc") or "") > 100 and r.random() < 0.5:
+                # a description past the wrap width that contains a token no wrapper can break without changing it
+                w_ = p["doc"].split()
+                w_.insert(len(w_) // 2, "/usr/local/share/" + "/".join(r.choice(irgen.WORDS) for _ in range(14)))
+                p["doc"] = " ".join(w_)
     if pk == "json_schema":
         irs = irs[:1]
         return json.dumps(hops.emit(irs[0], "json_schema")[0], indent=1), irs, "in.json"
@@ -315,7 +323,9 @@ def run_case(ctx, P, stream, idx):
         # expected interface: the source entry as read by the matching parser, through one hop of the emit format
         try:
             base = hops.parse(hops.emit(ir, pk_ir)[1], pk_ir) if pk != "json_schema" else hops.hop(ir, "json_schema")[1]
-            exp = hops.hop(dict(base, name=ir["name"]), emit_fmt)[1]
+            # (the command emits without word wrap unless asked - `--no-word-wrap` is a store_true flag that gen()
+            # compares with None - so the expectation is emitted without it too)
+            exp = hops.hop(dict(base, name=ir["name"]), emit_fmt, {} if emit_fmt == "json_schema" else {"word_wrap": False})[1]
         except Exception as e:
             P.count("expectation.unavailable")
             continue
